@@ -351,7 +351,10 @@ func (w *world) main() {
 		}
 	}
 	for k := 0; k < p.Depth; k++ {
-		sig := vsched.CurSig()
+		// the key of the tree oracle is what THIS thread has done so far (its dials, shuffles and their answers):
+		// the per-family goroutines of the previous dial may still be winding down, and their position is part of
+		// the global state key but has no bearing on what the next dial can do
+		sig := vsched.CurThreadSig()
 		got := dialOnce(0)
 		w.checkDial(fmt.Sprintf("dial %d", k+1), got)
 		m := w.ag.next[sig]
@@ -386,45 +389,66 @@ func (w *world) end(s *vsched.Sched, r *vsched.Result) (string, string) {
 	return "", fmt.Sprint(w.dials)
 }
 
-func scenario(p params) vsched.Scenario {
+func scenario(p params, cfg vsched.Config) vsched.Scenario {
 	ag := &agg{next: map[uint64]map[string]bool{}, how: map[uint64]string{}}
 	mode := vsched.ClockFrozen
 	if p.TTL > 0 {
 		mode = vsched.ClockStepped // a ticker firing moves the virtual clock to its deadline; the harness counts refreshes by it
 	}
-	return vsched.Scenario{Name: p.name(), Mode: mode,
+	sc := vsched.Scenario{Name: p.name(), Mode: mode,
 		Make: func() vsched.Instance {
 			dnsmem.ResetQueries()
 			w := &world{p: p, ag: ag}
 			return vsched.Instance{Main: w.main, End: w.end}
-		},
-		After: func() []string {
-			var bad []string
-			if p.CT > 0 || p.TTL > 0 || p.Fail {
-				return nil
-			}
-			want := sets[p.Set]
-			keys := make([]uint64, 0, len(ag.next))
-			for k := range ag.next {
-				keys = append(keys, k)
-			}
-			sort.Slice(keys, func(i, j int) bool { return ag.how[keys[i]] < ag.how[keys[j]] })
-			for _, k := range keys {
-				var missing []string
-				for _, a := range want {
-					if !ag.next[k][net.JoinHostPort(a, "80")] {
-						missing = append(missing, a)
-					}
-				}
-				if len(missing) > 0 {
-					bad = append(bad, fmt.Sprintf("resolved address(es) %v can no longer be reached by any outcome of the next dial %s", missing, ag.how[k]))
-					if len(bad) >= 2 {
-						break
-					}
-				}
-			}
-			return bad
 		}}
+	once := treeOracle(p, ag)
+	// The tree oracle needs, for every state, the union of what the next dial can do. One execution in some
+	// thousands sees the name's addresses in another order (the Go resolver is not the harness's), which moves an
+	// outcome from one shuffle to another: when a state seems to miss an address, the scenario is explored again,
+	// up to three times, into the same table - a state that really can not reach the address misses it every time.
+	sc.After = func() []string {
+		bad := once()
+		for round := 0; len(bad) > 0 && round < 3; round++ {
+			inner := sc
+			inner.After = nil
+			if st := vsched.Explore(inner, cfg); st.Capped != "" {
+				return nil // out of time: no verdict on the tree (the scenario is reported as capped by the caller's deadline handling)
+			}
+			bad = once()
+		}
+		return bad
+	}
+	return sc
+}
+
+func treeOracle(p params, ag *agg) func() []string {
+	return func() []string {
+		var bad []string
+		if p.CT > 0 || p.TTL > 0 || p.Fail {
+			return nil
+		}
+		want := sets[p.Set]
+		keys := make([]uint64, 0, len(ag.next))
+		for k := range ag.next {
+			keys = append(keys, k)
+		}
+		sort.Slice(keys, func(i, j int) bool { return ag.how[keys[i]] < ag.how[keys[j]] })
+		for _, k := range keys {
+			var missing []string
+			for _, a := range want {
+				if !ag.next[k][net.JoinHostPort(a, "80")] {
+					missing = append(missing, a)
+				}
+			}
+			if len(missing) > 0 {
+				bad = append(bad, fmt.Sprintf("resolved address(es) %v can no longer be reached by any outcome of the next dial %s", missing, ag.how[k]))
+				if len(bad) >= 2 {
+					break
+				}
+			}
+		}
+		return bad
+	}
 }
 
 type plan struct {
@@ -484,12 +508,22 @@ func plans() []plan {
 }
 
 func scenarioJob(p plan, dl time.Time) vsched.Job {
-	return vsched.Job{Sc: scenario(p.p), Cfg: vsched.Config{Bound: p.bound, Cache: true, Iterate: true, Deadline: dl}, Weight: len(sets[p.p.Set])*10 + p.p.Depth*5 + p.p.Threads*20}
+	cfg := vsched.Config{Bound: p.bound, Cache: true, Iterate: true, Deadline: dl}
+	return vsched.Job{Sc: scenario(p.p, cfg), Cfg: cfg, Weight: len(sets[p.p.Set])*10 + p.p.Depth*5 + p.p.Threads*20}
 }
 
 func TestC18(t *testing.T) {
 	dnsmem.Install(zone())
 	pl := plans()
+	if only := os.Getenv("C18_ONLY"); only != "" { // debugging aid: explore only the scenarios whose name contains this text
+		var sel []plan
+		for _, p := range pl {
+			if strings.Contains(p.p.name(), only) {
+				sel = append(sel, p)
+			}
+		}
+		pl = sel
+	}
 	dl := time.Now().Add(ev.Pick(150*time.Second, 40*time.Minute))
 	jobs := make([]vsched.Job, len(pl))
 	for i, p := range pl {
